@@ -82,9 +82,11 @@ type Session struct {
 	curBlk   *ssa.BasicBlock
 	anc      map[*ssa.BasicBlock]map[*ssa.BasicBlock]bool
 	mu       sync.Mutex
+	trackAlloc bool
 	inputs   []*inSpec
 	inputTerms []string
-	extRefs  []string // references of slices/maps received as arguments
+	extRefs  []string // references of slices received as arguments
+	extMaps  []string // references of maps received as arguments
 	subst    [][2]string // textual substitutions applied to every query (case splits)
 	newObjs  []newObj
 	recvRef  string
@@ -164,6 +166,12 @@ func (s *Session) ancestors(b *ssa.BasicBlock) map[*ssa.BasicBlock]bool {
 		return a
 	}
 	a := map[*ssa.BasicBlock]bool{b: true}
+	if s.trackAlloc && b.Parent() != nil && b == b.Parent().Recover {
+		// the recovery block is entered from any point of the body: the allocation counter there depends on the facts of every block
+		for _, x := range b.Parent().Blocks {
+			a[x] = true
+		}
+	}
 	stack := []*ssa.BasicBlock{b}
 	for len(stack) > 0 {
 		x := stack[len(stack)-1]
